@@ -172,6 +172,33 @@ fn grid(env: &Env) {
                     let _ = vs.write_all_volatile_to(goff, &mut vecsink, n);
                     judge("slice.write_all_volatile_to(Vec)", Dir::Read, n, abase + goff, lp, &take_events(), true);
                 }
+                if n >= 2 {
+                    // a Vec whose spare capacity is smaller than the transfer (it has to grow):
+                    // the guest side must still be read by one access of width n
+                    for spare in [1usize, n / 2, n - 1] {
+                        let mut vecsink: Vec<u8> = Vec::with_capacity(lm + spare);
+                        vecsink.extend(std::iter::repeat(0).take(lm));
+                        let tight = vecsink.capacity() - vecsink.len() < n;
+                        let _ = vs.write_all_volatile_to(goff, &mut vecsink, n);
+                        // where the transferred bytes live now (the Vec may have moved)
+                        let lp = vecsink.as_ptr() as usize + lm;
+                        let ev = take_events();
+                        // events that wrote into the old buffer cannot tile [lp, lp+n): judge on the guest side only
+                        let single = ev.len() == 1 && matches!(ev[0], CopyEvent::Single { width, src, .. } if width == n && src == abase + goff);
+                        let judged_class = (abase + goff) % n == 0 && matches!(n, 2 | 4 | 8) && lp % n == 0;
+                        if judged_class && !ev.is_empty() && !single {
+                            v(&format!("slice.write_all_volatile_to(Vec,growing)/aligned-{}-byte-transfer-not-a-single-access", n), jobj! {"n" => n, "guest_mod8" => gm, "vec_len" => lm, "spare" => spare, "events" => J::dbg(&ev)});
+                        }
+                        if vecsink.len() != lm + n {
+                            v("slice.write_all_volatile_to(Vec,growing)/length", jobj! {"n" => n, "got" => vecsink.len()});
+                        }
+                        out::key(&format!("slice.write_all_volatile_to(Vec)|growing{}|n{}|g{}|l{}", if tight { "" } else { "-roomy" }, n, gm, lm), true);
+                        if judged_class {
+                            out::count("judged_single_access_transfers", 1);
+                        }
+                        out::eval(1);
+                    }
+                }
                 // ---- region level
                 let ma = MemoryRegionAddress(goff as u64);
                 let _ = reg.write(buf.as_ref(), ma);
@@ -544,6 +571,12 @@ fn probe() {
                 }
                 let mut vsink: Vec<u8> = Vec::with_capacity(16);
                 xfer!("L", abase + off, n, concat!("slice.write_all_volatile_to(Vec)[", $tn, "]"), { let _ = vs.write_all_volatile_to(off, &mut vsink, n); });
+                if n >= 2 {
+                    // spare capacity smaller than the transfer: the Vec must grow
+                    let mut tight: Vec<u8> = Vec::with_capacity(8 + n / 2);
+                    tight.extend_from_slice(&[0u8; 8]);
+                    xfer!("L", abase + off, n, concat!("slice.write_all_volatile_to(Vec,growing)[", $tn, "]"), { let _ = vs.write_all_volatile_to(off, &mut tight, n); });
+                }
                 let mut gsrc: &[u8] = buf.as_ref();
                 xfer!("S", rbase + off, n, concat!("guest.read_exact_volatile_from(&[u8])[", $tn, "]"), { let _ = gm.read_exact_volatile_from(GuestAddress(0x1000 + off as u64), &mut gsrc, n); });
                 let mut src: &[u8] = buf.as_ref();
